@@ -197,6 +197,7 @@ type SimFSM struct {
 	SnapEvery int  // NeedSnapshot threshold on log size (0: never)
 	PadBytes  int  // extra payload in snapshots
 	Lenient   bool // Restore accepts arbitrary bytes (handler-level engines use synthetic snapshot content)
+	OnBadRestore func(node uint64, size int, err error) // when set, a Restore of unparsable content is reported here instead of failing
 	// gates: when non-nil the call parks until the scheduler sends on it
 	GateApply, GateSnapshot, GateRestore chan struct{}
 	Parked                               []string
@@ -284,7 +285,11 @@ func (f *SimFSM) Restore(r io.Reader) error {
 	var st FSMState
 	if err := json.Unmarshal(data, &st); err != nil {
 		if !f.Lenient {
-			return fmt.Errorf("snapshot content does not parse (%d bytes): %w", len(data), err)
+			if f.OnBadRestore == nil {
+				return fmt.Errorf("snapshot content does not parse (%d bytes): %w", len(data), err)
+			}
+			// the library ends the process (logger.Fatal) when Restore fails: report instead, the scheduler ends the walk
+			f.OnBadRestore(f.node, len(data), err)
 		}
 		st = FSMState{}
 	}
@@ -358,6 +363,7 @@ type Sim struct {
 	Errors  []string
 	Blocked []*Call
 	dirSeq  int
+	OnBadRestore func(node uint64, size int, err error) // see SimFSM.OnBadRestore; set before Boot
 }
 
 func NewSim(root string, opts SimOpts) *Sim {
@@ -394,7 +400,7 @@ func (s *Sim) Boot(id uint64, dir string, inc int, boot []uint64) (*SimNode, err
 		return nil, fmt.Errorf("NewSnapshotStorage: %w", err)
 	}
 	tr := &SimTransport{id: id, inc: inc, addr: Addr(id), n: s.Net}
-	fsm := &SimFSM{node: id, inc: inc, rec: s.Recd, SnapEvery: s.Opts.SnapEvery, PadBytes: s.Opts.PadBytes}
+	fsm := &SimFSM{node: id, inc: inc, rec: s.Recd, SnapEvery: s.Opts.SnapEvery, PadBytes: s.Opts.PadBytes, OnBadRestore: s.OnBadRestore}
 	r, err := raft.NewRaft(ID(id), Addr(id), fsm, dir,
 		raft.WithTransport(tr), raft.WithLog(&RecLog{Log: rawLog, rec: rec}),
 		raft.WithStateStorage(&RecState{StateStorage: st, rec: rec}),
@@ -611,6 +617,10 @@ func (s *Sim) Deliver(c *Call) {
 	}
 	c.handlerDone = make(chan struct{})
 	c.callee = p
+	var rec *Rec
+	if n := s.Nodes[c.To]; n != nil && n.Tr == p {
+		rec = n.Rec
+	}
 	go func() {
 		defer close(c.handlerDone)
 		defer func() {
@@ -628,6 +638,9 @@ func (s *Sim) Deliver(c *Call) {
 			c.HErr = p.rv(&req, &c.RVR)
 		case "IS":
 			req := *c.IS
+			if rec != nil {
+				rec.SetIS(req.LastIncludedIndex, req.LastIncludedTerm)
+			}
 			c.HErr = p.is(&req, &c.ISR)
 		}
 	}()
